@@ -7,7 +7,7 @@ Outcome: dict(violation=None|{cls,msg,attrs,step}, digest, nontrivial, stats, ex
 """
 from ..common import rng_for, digest, canon, tuplify, same, plain, h64
 from .model import Spec, Model, path_str, step_kind
-from .gen import swarm_config, gen_spec, HistoryGen
+from .gen import swarm_config, gen_spec, HistoryGen, swap_colliding_literal
 from .execute import Exec, Violation, PROPAGATING
 
 
@@ -1169,7 +1169,9 @@ class C11:
                     pre.append((p, hg.eg.gen(spec.leaf_type[p], 1, True)))
                 finally:
                     hg.eg.rng = keep
-            return ("copyexpr", ri, bool(wrap), r.random() < 0.6, tuple(pre))
+            # last flag: one more definition is already present at a copied target - the copied one with an integer literal
+            # -1 / -2 exchanged (two expressions that differ and hash alike)
+            return ("copyexpr", ri, bool(wrap), r.random() < 0.6, tuple(pre), r.random() < 0.4)
 
         ops = insert_markers(rm, ops, marker, 1, 3)
         return {"cfg": cfg, "spec": spec.to_json(), "ops": ops}
@@ -1217,7 +1219,7 @@ class C11:
                         mirror = D
                     continue
                 if op[0] == "copyexpr":
-                    _, ri, wrap, overwrite, pre = op
+                    _, ri, wrap, overwrite, pre = op[:5]
                     if S.wrap:
                         ex.count("copyexpr_skipped")      # one rebinding per history
                         continue
@@ -1238,6 +1240,13 @@ class C11:
                     pairs = tuple((t[1], ex.model.defs[t[1]]) for t in ex.model.order if t[0] == "e" and t[1][0] == label)
                     if not pairs:
                         continue
+                    if len(op) > 5 and op[5]:
+                        for p_, a_ in pairs:
+                            sw = swap_colliding_literal(a_)
+                            if sw != a_ and p_ not in [x[0] for x in pre]:
+                                pre = tuple(pre) + ((p_, sw),)
+                                ex.count("copy_over_a_definition_with_the_same_hash")
+                                break
                     try:
                         if pre:
                             model_step(mD, ("load", tuple(pre), True), gr)
